@@ -105,6 +105,8 @@ VARIANTS = [
     {'entry': 'solve', 'scale': 1.0, 'span': 'range', 'tolmode': 'ulp', 'flavour': 1},
     {'entry': 'solve', 'scale': 0.25, 'span': 'str', 'tolmode': 'eq', 'flavour': 0},
 ]
+# values at the top of the float64 range: finite, but the sum of two of them is not (only for slices over {0, 1})
+HUGE = {'entry': 'solve_t', 'scale': 2.0 ** 1023, 'span': 'range', 'tolmode': 'eq', 'flavour': 0}
 
 
 def replay(ctx: core.Ctx, records: List[Dict[str, Any]], *, all_variants: bool, what: str, module: str = 'harness.replay_solver',
